@@ -18,15 +18,9 @@ package migrations
 // OUTSIDE the claim: the cbor-gen (de)serialisers and go-ds-versioning's migration driver
 // (which applies these two functions to every stored key; reflection + datastore I/O).
 //
-// Structural guard: verifShapeV3 / verifShapeV2 below are field-for-field copies of the two
-// record types. The struct conversions only compile while the shapes are identical, so adding,
-// removing, renaming or retyping a field of internal.ChannelState or ChannelStateV2 without
-// revisiting the comparison in this file is a build error (the check aborts loudly), not a
-// silently skipped field.
+// Structural guard: verifShapeGuard asserts the exact field list of the version-2 record.
 
 import (
-	"github.com/ipfs/go-cid"
-	"github.com/ipld/go-ipld-prime/datamodel"
 	peer "github.com/libp2p/go-libp2p/core/peer"
 
 	versioning "github.com/filecoin-project/go-ds-versioning/pkg"
@@ -37,75 +31,18 @@ import (
 	zz "github.com/filecoin-project/go-data-transfer/v2/zzverif"
 )
 
-type verifShapeV3 struct {
-	SelfPeer             peer.ID
-	TransferID           datatransfer.TransferID
-	Initiator            peer.ID
-	Responder            peer.ID
-	BaseCid              cid.Cid
-	Selector             internal.CborGenCompatibleNode
-	Sender               peer.ID
-	Recipient            peer.ID
-	TotalSize            uint64
-	Status               datatransfer.Status
-	Queued               uint64
-	Sent                 uint64
-	Received             uint64
-	Message              string
-	Vouchers             []internal.EncodedVoucher
-	VoucherResults       []internal.EncodedVoucherResult
-	ReceivedBlocksTotal  int64
-	QueuedBlocksTotal    int64
-	SentBlocksTotal      int64
-	DataLimit            uint64
-	RequiresFinalization bool
-	ResponderPaused      bool
-	InitiatorPaused      bool
-	Stages               *datatransfer.ChannelStages
-}
+const verifFieldsV2 = "SelfPeer,TransferID,Initiator,Responder,BaseCid,Selector,Sender,Recipient,TotalSize,Status,Queued,Sent,Received,Message,Vouchers,VoucherResults,ReceivedBlocksTotal,QueuedBlocksTotal,SentBlocksTotal,DataLimit,RequiresFinalization,Stages"
 
-type verifShapeV2 struct {
-	SelfPeer             peer.ID
-	TransferID           datatransfer.TransferID
-	Initiator            peer.ID
-	Responder            peer.ID
-	BaseCid              cid.Cid
-	Selector             internal.CborGenCompatibleNode
-	Sender               peer.ID
-	Recipient            peer.ID
-	TotalSize            uint64
-	Status               datatransfer.Status
-	Queued               uint64
-	Sent                 uint64
-	Received             uint64
-	Message              string
-	Vouchers             []internal.EncodedVoucher
-	VoucherResults       []internal.EncodedVoucherResult
-	ReceivedBlocksTotal  int64
-	QueuedBlocksTotal    int64
-	SentBlocksTotal      int64
-	DataLimit            uint64
-	RequiresFinalization bool
-	Stages               *datatransfer.ChannelStages
+// verifShapeGuard: the field-by-field comparison in this file enumerates the fields of the
+// version-2 record (the SOURCE of the migration, a frozen on-disk format). If that list changes,
+// stored data would be read differently and the comparison below would silently skip a field:
+// reported as a violation of C13 (a check result, not a load error that would take every other
+// property's check down with it). Fields ADDED to the version-3 record have no source and are
+// legitimately left at their zero value; they are not this guard's business (their persistence
+// is C06's round trip).
+func verifShapeGuard() {
+	zz.Assert(zz.FieldNames(ChannelStateV2{}) == verifFieldsV2, "version-2 record has exactly the fields the migration reads")
 }
-
-// compile-time shape guards (24 fields in version 3, 22 in version 2)
-var _ = verifShapeV3(internal.ChannelState{})
-var _ = verifShapeV2(ChannelStateV2{})
-
-type verifShapeVoucher struct {
-	Type    datatransfer.TypeIdentifier
-	Voucher internal.CborGenCompatibleNode
-}
-type verifShapeVoucherResult struct {
-	Type          datatransfer.TypeIdentifier
-	VoucherResult internal.CborGenCompatibleNode
-}
-type verifShapeNode struct{ Node datamodel.Node }
-
-var _ = verifShapeVoucher(internal.EncodedVoucher{})
-var _ = verifShapeVoucherResult(internal.EncodedVoucherResult{})
-var _ = verifShapeNode(internal.CborGenCompatibleNode{})
 
 // verifArbitraryV2 builds an arbitrary version-2 record.
 func verifArbitraryV2(label string) *ChannelStateV2 {
@@ -142,7 +79,10 @@ func verifCopyV2(o *ChannelStateV2) ChannelStateV2 {
 }
 
 // VerifC13_Migrate2To3: one arbitrary stored record through the 2 -> 3 migration.
-func VerifC13_Migrate2To3() { verifCheckMigration(MigrateChannelState2To3) }
+func VerifC13_Migrate2To3() {
+	verifShapeGuard()
+	verifCheckMigration(MigrateChannelState2To3)
+}
 
 // verifCheckMigration checks a 2->3 migration function on an arbitrary version-2 record.
 func verifCheckMigration(migrate func(*ChannelStateV2) (*internal.ChannelState, error)) {
